@@ -39,6 +39,15 @@ type Origin struct {
 	Release    chan struct{}
 	FailFirst  map[string]int // path -> number of initial 503 answers
 	failCount  map[string]int
+	// AfterStall: what the stalled request gets once it is released: "" = the normal response, "429" = a response the
+	// default discard policy rejects, "drop" = the connection is cut (for a mid-body stall: a truncated body)
+	AfterStall string
+	// CDX: the origin also plays the CDX dedupe server (/web/timemap/cdx); the CDXStallK-th lookup signals CDXEvent and
+	// is held until CDXRelease (or 8 s - the client gives up after 10 s)
+	CDXStallK  int
+	cdxCount   int
+	CDXEvent   chan string
+	CDXRelease chan struct{}
 }
 
 func NewOrigin(ip string, assets int) (*Origin, error) {
@@ -47,7 +56,7 @@ func NewOrigin(ip string, assets int) (*Origin, error) {
 		return nil, err
 	}
 	o := &Origin{ln: ln, t0: time.Now(), Assets: assets, Event: make(chan int, 4), Release: make(chan struct{}), run: 1,
-		FailFirst: map[string]int{}, failCount: map[string]int{}}
+		FailFirst: map[string]int{}, failCount: map[string]int{}, CDXEvent: make(chan string, 4), CDXRelease: make(chan struct{})}
 	o.srv = &http.Server{Handler: http.HandlerFunc(o.handle)}
 	go o.srv.Serve(ln)
 	return o, nil
@@ -69,7 +78,7 @@ func (o *Origin) Log() []Req {
 	return out
 }
 
-func (o *Origin) stall(n int, phase string) {
+func (o *Origin) stall(n int, phase string) bool {
 	if o.StallK == n && o.StallPhase == phase {
 		select {
 		case o.Event <- n:
@@ -79,17 +88,48 @@ func (o *Origin) stall(n int, phase string) {
 		case <-o.Release:
 		case <-time.After(15 * time.Second):
 		}
+		return true
 	}
+	return false
 }
 
 func (o *Origin) handle(w http.ResponseWriter, r *http.Request) {
+	if strings.HasPrefix(r.URL.Path, "/web/timemap/cdx") {
+		o.mu.Lock()
+		o.cdxCount++
+		k := o.cdxCount
+		o.mu.Unlock()
+		if k == o.CDXStallK {
+			select {
+			case o.CDXEvent <- r.URL.Query().Get("url"):
+			default:
+			}
+			select {
+			case <-o.CDXRelease:
+			case <-time.After(8 * time.Second):
+			}
+		}
+		w.WriteHeader(200)
+		return
+	}
 	o.mu.Lock()
 	rq := &Req{N: len(o.reqs) + 1, Run: o.run, Path: r.URL.Path, At: time.Since(o.t0).Milliseconds()}
 	o.reqs = append(o.reqs, rq)
 	o.failCount[r.URL.Path]++
 	failing := o.failCount[r.URL.Path] <= o.FailFirst[r.URL.Path]
 	o.mu.Unlock()
-	o.stall(rq.N, "arrival")
+	if o.stall(rq.N, "arrival") && o.AfterStall != "" {
+		if o.AfterStall == "429" {
+			w.Header().Set("Content-Type", "text/plain")
+			w.WriteHeader(429)
+			io.WriteString(w, "slow down")
+			o.mu.Lock()
+			rq.Done = true
+			o.mu.Unlock()
+			return
+		}
+		panic(http.ErrAbortHandler) // drop the connection without an answer
+	}
 	if failing {
 		w.Header().Set("Content-Type", "text/plain")
 		w.WriteHeader(503)
@@ -126,7 +166,9 @@ func (o *Origin) handle(w http.ResponseWriter, r *http.Request) {
 	if f, ok := w.(http.Flusher); ok {
 		f.Flush()
 	}
-	o.stall(rq.N, "midbody")
+	if o.stall(rq.N, "midbody") && o.AfterStall == "drop" {
+		panic(http.ErrAbortHandler) // truncated body
+	}
 	io.WriteString(w, body[half:])
 	if f, ok := w.(http.Flusher); ok {
 		f.Flush()
